@@ -6,10 +6,12 @@ import (
 	"math"
 	"math/big"
 	"strings"
+	"sync"
 	"testing"
 	"time"
 
 	"github.com/la5nta/wl2k-go/catalog"
+	"github.com/la5nta/wl2k-go/fbb"
 	"pgregory.net/rapid"
 
 	"verif/internal/harness"
@@ -45,6 +47,7 @@ type Case struct {
 
 type outcome struct {
 	lat, lon, course string
+	history          bool // an earlier report of this process was re-read after this one was built
 }
 
 // unitsPerDegree: the line has four minute decimals, so one unit is 1/10000 minute.
@@ -146,6 +149,13 @@ func (c Case) report() (catalog.PosReport, string, string) {
 	return p, "", ""
 }
 
+var (
+	histMu   sync.Mutex
+	histPrev *fbb.Message
+	histBody string
+	histN    int
+)
+
 func judge(c Case, o *outcome) (sig, msg string) {
 	p, sig, msg := c.report()
 	if sig != "" {
@@ -162,6 +172,21 @@ func judge(c Case, o *outcome) (sig, msg string) {
 	if err != nil {
 		return "body-unreadable", fmt.Sprintf("Body() = %v", err)
 	}
+	// history: the report built before this one (kept by the process, every 8th report) must still state what it
+	// stated when it was built - a tracker builds many reports before it sends the first
+	histMu.Lock()
+	if histPrev != nil {
+		if b2, err := histPrev.Body(); err != nil || b2 != histBody {
+			histMu.Unlock()
+			return "earlier-report-changed", fmt.Sprintf("a report built earlier now has another body (err=%v) after this report was built:\nthen %q\nnow  %q", err, histBody, b2)
+		}
+		histPrev = nil
+		o.history = true
+	}
+	if histN++; histN%8 == 0 {
+		histPrev, histBody = m, body
+	}
+	histMu.Unlock()
 	fields := map[string][]string{}
 	for _, line := range strings.Split(body, "\n") {
 		line = strings.TrimSuffix(line, "\r")
